@@ -204,8 +204,26 @@ def outcomeShape : HttpOutcome → String
   | .doErr e => printShape e
   | .doPanic => "nil"
 
+/-- The gun's `auto-tag` section as WRITTEN in the pool config (round 6): `atd=<keys>` lists the keys that are written
+(`e` enabled, `u` uri-elements, `n` no-tag-only, `-` none); without `atd` all three are. The model decodes the section over
+the gun's defaults (`Model.C10.decodeAutoTag`), the Spec reads the absent keys off the documentation. -/
+def writtenAutoTag (kv : List (String × String)) : Option Bool × Option Nat × Option Bool :=
+  let atd := getS kv "atd"
+  let has (c : Char) : Bool := atd == "" || atd.toList.contains c
+  (if has 'e' then some (getS kv "auto" == "1") else none,
+   if has 'u' then some ((getN? kv "el").getD 0) else none,
+   if has 'n' then some (getS kv "nto" == "1") else none)
+
+def cfgOf (kv : List (String × String)) : AutoTagCfg :=
+  let w := writtenAutoTag kv
+  decodeAutoTag w.1 w.2.1 w.2.2
+
+def expTagOf (kv : List (String × String)) (ammoTag path : String) : String :=
+  let w := writtenAutoTag kv
+  Spec.C10.expectedTagWritten w.1 w.2.1 w.2.2 ammoTag path
+
 def handleHttp (kv : List (String × String)) (impl : String) : String × String :=
-  let cfg : AutoTagCfg := { enabled := getS kv "auto" == "1", uriElements := (getN? kv "el").getD 0, noTagOnly := getS kv "nto" == "1" }
+  let cfg : AutoTagCfg := cfgOf kv
   let parsedReqs : Option (List HReq) := match getN? kv "gen" with
     | some n => some (genReqs n)
     | none => (splitList (getS kv "reqs") ";").mapM parseHReq
@@ -230,7 +248,7 @@ def handleHttp (kv : List (String × String)) (impl : String) : String × String
         let rep := (shootHttp cfg shot).reports
         let shp := outcomeShape outcome
         let line := rep.map fun s => fmtSample true s shp
-        let exp := Spec.C10.expectedTag cfg.enabled cfg.uriElements cfg.noTagOnly r.tag r.path
+        let exp := expTagOf kv r.tag r.path
         (line, Spec.C10.judgeHttp exp truth (mine.map ObsS.toObs), (rep.head?.map Sample.net).getD 0)
       let stray := obs.filter fun o => o.id == 0 || o.id > reqs.length
       -- several instances (inst>1): the harness numbers the samples by REQUEST (unique tag r<i>) and lists the real ids
@@ -269,14 +287,14 @@ def handleHttp (kv : List (String × String)) (impl : String) : String × String
 /-- `pan=1`: the http2 gun against a TLS target without HTTP/2 — the documented fatal condition. `Do` panics, the deferred
 `Report` still delivers the one sample (proto 0, net 0), the engine aborts the run. Judged: one sample, right tag. -/
 def handleHttpFatal (kv : List (String × String)) (impl : String) : String × String :=
-  let cfg : AutoTagCfg := { enabled := getS kv "auto" == "1", uriElements := (getN? kv "el").getD 0, noTagOnly := getS kv "nto" == "1" }
+  let cfg : AutoTagCfg := cfgOf kv
   match (splitList (getS kv "reqs") ";").mapM parseHReq with
   | some [r] =>
     let shot : HttpShot := { ammoTag := r.tag, id := 1, path := r.path, outcome := .doPanic }
     let rs := shootHttp cfg shot
     let line := fmtLine (if rs.panicked then "panic:not-http2" else "ok") (rs.reports.map fun s => fmtSample true s "nil")
     let ikv := parseKV impl
-    let exp := Spec.C10.expectedTag cfg.enabled cfg.uriElements cfg.noTagOnly r.tag r.path
+    let exp := expTagOf kv r.tag r.path
     let v := match parseSamples true (getS ikv "s") with
       | none => s!"fail:crash:unparsable observation {impl.take 120}"
       | some [o] =>
@@ -372,7 +390,7 @@ sample), by the fate the target's log gives it. -/
 def leId (a b : String × Nat) : Bool := a.2 ≤ b.2
 
 def handleOvf (kv : List (String × String)) (impl : String) : String × String :=
-  let cfg : AutoTagCfg := { enabled := getS kv "auto" == "1", uriElements := (getN? kv "el").getD 0, noTagOnly := getS kv "nto" == "1" }
+  let cfg : AutoTagCfg := cfgOf kv
   match (splitList (getS kv "reqs") ";").mapM parseHReq with
   | none => ("-", "fail:driver:unparsable reqs")
   | some reqs =>
@@ -393,7 +411,7 @@ def handleOvf (kv : List (String × String)) (impl : String) : String × String 
         let (outcome, truth) : HttpOutcome × Truth := reqOutcome false r.truth r.script ((o1.map (·.proto)).getD 0) shape
         let plan : ShotPlan := { ammoTag := r.tag, path := r.path, outcome := outcome }
         let fate : Fate := if firedAt i then .fired else .discarded
-        let exp := Spec.C10.expectedTag cfg.enabled cfg.uriElements cfg.noTagOnly r.tag r.path
+        let exp := expTagOf kv r.tag r.path
         -- a request the target never saw, with a sample of a FAILED exchange: it was fired and did not get through (an
         -- overloaded host); nothing can be concluded about the instance's decision
         let lost := !firedAt i && mine.any fun o => o.proto == 0 && o.net != 0
